@@ -526,8 +526,23 @@ def pikevm_pass(run, r, log):
     cap_n = 500 if r['tier'] == 'quick' else 5000
     lines = []
     asked = []
+    written = set()
     for i in look:
-        lines += P.case_block(str(i), r['caps'][i], r['corpus'][i])
+        blk = P.case_block(str(i), r['caps'][i], r['corpus'][i])
+        lines += blk
+        # the same reference with every leaf rebuilt from the pattern as written (no subpatterns: the text of the leaf is the pattern)
+        d = r['corpus'][i]
+        leaves = d.ordered_leaves()
+        wblk = None
+        if not d.subpatterns and len(leaves) == len(r['caps'][i].leaves):
+            wblk = ['CASE %dw' % i] + blk[1:]
+            for li, lf in enumerate(leaves):
+                raw = lf.pat if isinstance(lf.pat, (bytes, bytearray)) else lf.pat.encode('utf-8')
+                if lf.kind != 'token' and lf.is_bytes:
+                    raw = ''.join(chr(b_) if b_ < 128 else '\\x%02X' % b_ for b_ in raw).encode('ascii')
+                wblk.append('WSRC %d %d %d %d %s' % (li, 0 if lf.is_bytes else 1, 1 if lf.ignore_case else 0, 1 if lf.kind == 'token' else 0, P.hexs(raw)))
+            written.add(i)
+        qs = []
         ins = [b for b in r['inputs'][i] if len(b) <= 24]
         step = max(1, len(ins) // cap_n)
         for b in ins[::step]:
@@ -540,7 +555,10 @@ def pikevm_pass(run, r, log):
                 continue
             resume = ','.join('%d>%d' % (a, e) for (k, nm, a, e) in items if k == 'err' and nm in ('d',) or (k == 'err' and nm.startswith('b')))
             lines.append('Q REF %s %s' % (hx, resume or '-'))
+            qs.append(lines[-1])
             asked.append((i, hx, v))
+        if wblk is not None:
+            lines += wblk + qs
     binp = os.path.join(P.HARNESS, 'target', 'debug', 'reflex')
     pr = subprocess.run([binp], input='\n'.join(lines) + '\n', capture_output=True, text=True)
     ref = {}
@@ -548,10 +566,15 @@ def pikevm_pass(run, r, log):
         if ' : ' in ln:
             k, v = ln.split(' : ', 1)
             t = k.split(' ')
-            ref[(int(t[0]), t[2])] = v
+            ref[(t[0], t[2])] = v
     bad = 0
-    for (i, hx, v) in asked:
-        rv = ref.get((i, hx))
+    nwritten = 0
+    for (i, hx, v, which) in [(i, hx, v, w) for (i, hx, v) in asked for w in ('', 'w') if w == '' or i in written]:
+        rv = ref.get((str(i) + which, hx))
+        if which == 'w' and rv is not None and 'BADPATTERN' not in rv:
+            nwritten += 1
+        if rv is not None and 'BADPATTERN' in rv:
+            continue
         if rv is None or 'NORESUME' in rv or 'REFLOOP' in rv:
             # the implementation produced a token where the reference expected an error (or vice versa): compare below
             pass
@@ -577,9 +600,11 @@ def pikevm_pass(run, r, log):
         if not ok:
             bad += 1
             run.violation('oracle-lookaround', rep_of(r, i, cfg, 'n', hx, observed=v, expected_by_pikevm_reference=rv,
+                                                      reference_built_from='the patterns as written' if which else 'the captured HIR',
                                                       what='items differ from the PikeVM reference lexer (longest match / priority on a definition with look-around assertions)'),
-                          key='pike|%s|%s' % (r['corpus'][i].origin, hx))
-    return dict(definitions=len(look), comparisons=len(asked), failures=bad)
+                          key='pike%s|%s|%s' % (which, r['corpus'][i].origin, hx))
+    return dict(definitions=len(look), comparisons=len(asked), failures=bad, definitions_also_from_patterns_as_written=len(written),
+                comparisons_from_patterns_as_written=nwritten)
 
 
 def cert_fail_search(run, r, prop, defs_, log, targets=None, why='search around the failed certificate'):
